@@ -79,6 +79,9 @@ pub fn generate(prop: &str, rng: &mut Rng, n: usize) -> Vec<Case> {
         "C02" => gen_sel(rng, n, &mut out, &["c02_direct"]),
         "C03" => gen_sel(rng, n, &mut out, &["c03_hist"]),
         "C12" => gen_sel(rng, n, &mut out, &["c12_v"]),
+        "C13" => gen_pwops(rng, n, &mut out, &["c13_add", "c13_sub"]),
+        "C15" => gen_pwops(rng, n, &mut out, &["c15_ops"]),
+        "C11" => gen_pwops(rng, n, &mut out, &["c11_integral"]),
         "C16" => gen_sel(rng, n, &mut out, &["c16_hist_nan", "c16_v_nan", "c02_direct"]),
         _ => {}
     }
@@ -101,6 +104,7 @@ pub fn run_case(c: &Case) -> Option<String> {
     if k == "c14_polyn" { return run_c14_polyn(&p); }
     if k == "c04_spline" { return run_c04(&p); }
     if k == "c06_linear" { return run_c06(&p); }
+    if k == "c13_add" || k == "c13_sub" || k == "c15_ops" || k == "c11_integral" { return run_pwops(k, &p); }
     if k == "c02_direct" || k == "c03_hist" || k == "c12_v" || k == "c16_hist_nan" || k == "c16_v_nan" { return run_sel(k, &p); }
     Some(format!("unknown case kind {}", k))
 }
@@ -946,5 +950,123 @@ fn gen_sel(rng: &mut Rng, n: usize, out: &mut Vec<Case>, kinds: &[&str]) {
         }
         if kind == "c12_v" && rng.below(3) != 0 { qs.sort_by(|a, b| a.partial_cmp(b).unwrap()); }
         push(&ends, &qs, out, kind);
+    }
+}
+
+// ------------------------------------------------------------------------------------------ C13 / C15 / C11 (piecewise structure)
+// params: [NF, (end, c0, c1) x NF, NG, (end, c0, c1) x NG, extra...]; coefficients and ends are small dyadic numbers so that every
+// quantity below is exact in f64 and bit comparison is meaningful.
+fn read_pw(p: &[f64]) -> (Piecewise<Poly1>, usize) {
+    let n = p[0] as usize;
+    let mut segs = Vec::new();
+    for i in 0..n { segs.push(Segment { end: p[1 + 3 * i], poly: Poly1([p[2 + 3 * i], p[3 + 3 * i]]) }); }
+    (Piecewise { segments: segs }, 1 + 3 * n)
+}
+fn pw_ends<T>(f: &Piecewise<T>) -> Vec<f64> { f.segments.iter().map(|s| s.end).collect() }
+fn test_points(ends: &[f64]) -> Vec<f64> {
+    let mut xs = vec![f64::NEG_INFINITY, f64::INFINITY];
+    for e in ends { xs.push(*e); xs.push(*e - 0.5); xs.push(*e + 0.5); xs.push(f64::from_bits(e.to_bits().wrapping_add(1))); xs.push(f64::from_bits(e.to_bits().wrapping_sub(1))); }
+    xs.retain(|x| !x.is_nan());
+    xs
+}
+fn run_pwops(kind: &str, p: &[f64]) -> Option<String> {
+    let (f, used) = read_pw(p);
+    let fe = pw_ends(&f);
+    match kind {
+        "c13_add" | "c13_sub" => {
+            let (g, _used2) = read_pw(&p[used..]);
+            // the only piece type with `&T + &T` in the crate is IntOfLogPoly4
+            let q4 = |w: &Piecewise<Poly1>| Piecewise { segments: w.segments.iter().map(|s| Segment { end: s.end, poly: IntOfLogPoly4 { k: s.poly.0[0], coeffs: [s.poly.0[1], s.poly.0[0] * 0.5, 1.0, s.poly.0[1] + 3.0], u: s.poly.0[1] * 4.0 } }).collect() };
+            let (f, g) = (q4(&f), q4(&g));
+            let ge = pw_ends(&g);
+            let add = kind == "c13_add";
+            let h = if add { &f + &g } else { &f - &g };
+            let he = pw_ends(&h);
+            if h.segments.is_empty() { return Some("result has no pieces".into()); }
+            if h.segments.len() > f.segments.len() + g.segments.len() - 1 { return Some(format!("result has {} pieces for operands of {} and {}", h.segments.len(), f.segments.len(), g.segments.len())); }
+            for w in he.windows(2) { if !(w[0] <= w[1]) { return Some(format!("result breakpoints not non-decreasing: {:?}", he)); } }
+            for e in &he { if !fe.iter().chain(ge.iter()).any(|q| q.to_bits() == e.to_bits()) { return Some(format!("result breakpoint {:e} is not a breakpoint of either operand", e)); } }
+            let mut xs = test_points(&fe); xs.extend(test_points(&ge));
+            for x in xs {
+                let (i, j, k) = (sel_oracle(&fe, x), sel_oracle(&ge, x), sel_oracle(&he, x));
+                let (a, b) = (f.segments[i].poly, g.segments[j].poly);
+                let want = if add { &a + &b } else { &a - &b };
+                let got = h.segments[k].poly;
+                let bits = |q: &IntOfLogPoly4| [q.k.to_bits(), q.coeffs[0].to_bits(), q.coeffs[1].to_bits(), q.coeffs[2].to_bits(), q.coeffs[3].to_bits(), q.u.to_bits()];
+                if bits(&got) != bits(&want) {
+                    return Some(format!("at x={:e} the result's piece {} is {:?}; piece {} of f {} piece {} of g is {:?}; f ends {:?} g ends {:?} result ends {:?}", x, k, got, i, if add { "+" } else { "-" }, j, want, fe, ge, he));
+                }
+            }
+            None
+        }
+        "c15_ops" => {
+            let s = p[used];
+            let c = p[used + 1];
+            let chk = |name: &str, r: &Piecewise<Poly1>, piece: &dyn Fn(Poly1) -> Poly1| -> Option<String> {
+                if r.segments.len() != f.segments.len() { return Some(format!("{}: {} pieces became {}", name, f.segments.len(), r.segments.len())); }
+                for (i, (a, b)) in f.segments.iter().zip(r.segments.iter()).enumerate() {
+                    if a.end.to_bits() != b.end.to_bits() { return Some(format!("{}: breakpoint {} changed from {:e} to {:e}", name, i, a.end, b.end)); }
+                    let w = piece(a.poly);
+                    if w.0[0].to_bits() != b.poly.0[0].to_bits() || w.0[1].to_bits() != b.poly.0[1].to_bits() { return Some(format!("{}: piece {} is {:?}, the operation on that piece alone gives {:?}", name, i, b.poly.0, w.0)); }
+                }
+                None
+            };
+            if let Some(e) = chk("mul", &(f.clone() * s), &|q| q * s) { return Some(e); }
+            let mut m = f.clone(); m *= s;
+            if let Some(e) = chk("mul_assign", &m, &|q| { let mut q = q; q *= s; q }) { return Some(e); }
+            if let Some(e) = chk("neg", &(-f.clone()), &|q| -q) { return Some(e); }
+            let mut t = f.clone(); t.translate(c);
+            if let Some(e) = chk("translate", &t, &|q| { let mut q = q; q.translate(c); q }) { return Some(e); }
+            None
+        }
+        "c11_integral" => {
+            let k0 = Knot { x: p[used], y: p[used + 1] };
+            let big = f.integral(k0);
+            let ind = f.indefinite();
+            for (name, r) in [("integral", &big), ("indefinite", &ind)] {
+                if r.segments.len() != f.segments.len() { return Some(format!("{}: {} pieces became {}", name, f.segments.len(), r.segments.len())); }
+                for (i, (a, b)) in f.segments.iter().zip(r.segments.iter()).enumerate() {
+                    if a.end.to_bits() != b.end.to_bits() { return Some(format!("{}: breakpoint {} changed from {:e} to {:e}", name, i, a.end, b.end)); }
+                    let d = b.poly.derivative();
+                    if d.0[0] != a.poly.0[0] || d.0[1] != a.poly.0[1] { return Some(format!("{}: piece {} = {:?} is not an antiderivative of {:?}", name, i, b.poly.0, a.poly.0)); }
+                    if i + 1 < r.segments.len() {
+                        let (l, rr) = (b.poly.evaluate(b.end), r.segments[i + 1].poly.evaluate(b.end));
+                        if l != rr { return Some(format!("{}: pieces {} and {} disagree at the breakpoint {:e}: {:e} vs {:e}", name, i, i + 1, b.end, l, rr)); }
+                    }
+                }
+            }
+            if big.segments[0].poly.evaluate(k0.x) != k0.y { return Some(format!("integral: first piece at knot x={:e} is {:e}, expected {:e}", k0.x, big.segments[0].poly.evaluate(k0.x), k0.y)); }
+            if ind.segments[0].poly.0[0] != 0.0 { return Some(format!("indefinite: first piece has additive constant {:e}", ind.segments[0].poly.0[0])); }
+            let by_val: Vec<Segment<Poly2>> = Segment::integral_iter(f.segments.clone(), k0).collect();
+            let by_ref: Vec<Segment<Poly2>> = Segment::integral_iter_ref(&f.segments, k0).collect();
+            if by_val != by_ref || by_ref != big.segments { return Some("by-value / by-reference iterators and integral() produce different pieces".into()); }
+            None
+        }
+        _ => Some("unknown piecewise case".into()),
+    }
+}
+
+fn gen_pwops(rng: &mut Rng, n: usize, out: &mut Vec<Case>, kinds: &[&str]) {
+    let n = n.min(3000);
+    let mut round = 0usize;
+    let mut mkpw = |rng: &mut Rng, v: &mut Vec<f64>| {
+        let nseg = match rng.below(3) { 0 => 1 + rng.below(2) as usize, 1 => 1 + rng.below(6) as usize, _ => 1 + rng.below(14) as usize };
+        let mut ends: Vec<f64> = (0..nseg).map(|_| (rng.below(25) as f64) * 0.5 - 4.0).collect();
+        ends.sort_by(|a, b| a.partial_cmp(b).unwrap());
+        if rng.below(3) == 0 { ends.dedup(); }
+        v.push(ends.len() as f64);
+        for e in ends { v.push(e); v.push((rng.below(33) as f64) - 16.0); v.push(((rng.below(17) as f64) - 8.0) * 2.0); }
+    };
+    while out.len() < n {
+        let kind = kinds[round % kinds.len()];
+        round += 1;
+        let mut v = Vec::new();
+        mkpw(rng, &mut v);
+        match kind {
+            "c13_add" | "c13_sub" => { mkpw(rng, &mut v); }
+            "c15_ops" => { v.push([2.0, -1.0, 0.5, 0.0, 3.0, -0.25][rng.below(6) as usize]); v.push((rng.below(17) as f64) - 8.0); }
+            _ => { v.push((rng.below(9) as f64) - 6.0); v.push((rng.below(9) as f64) - 4.0); }
+        }
+        out.push(case(kind, &v));
     }
 }
